@@ -8,6 +8,7 @@ package models
 //@ predicate inReplicasV(r Replica, id NodeID) bool = exists(i, 0, len(r.Replicas), r.Replicas[i] == id)
 //@ predicate inReplicas(r *Replica, id NodeID) bool = exists(i, 0, len(r.Replicas), r.Replicas[i] == id)
 //@ predicate distinctReplicas(r *Replica) bool = forall(i, 0, len(r.Replicas), forall(j, 0, len(r.Replicas), i != j ==> r.Replicas[i] != r.Replicas[j]))
+//@ predicate noShare(s *ShardAssignment) bool = all(a, "ShardID", all(b, "ShardID", (a != b && has(s.Shards, a) && has(s.Shards, b)) ==> s.Shards[a] != s.Shards[b]))
 //@ func Replica.Contain
 //@   prop C18
 //@   arith math
@@ -20,7 +21,8 @@ package models
 //@   arith math
 //@   requires s.Shards != nil && all(k, "ShardID", has(s.Shards, k) ==> s.Shards[k] != nil)
 //@   requires has(s.Shards, shardID) ==> distinctReplicas(s.Shards[shardID])
-//@   modifies *
+//@   requires noShare(s)
+//@   modifies s.Shards[*], any(*Replica).Replicas, s.replicaFactor
 //@   ensures[present] has(s.Shards, shardID) && s.Shards[shardID] != nil && inReplicas(s.Shards[shardID], replicaID)
 //@   ensures[distinct] distinctReplicas(s.Shards[shardID])
 //@   ensures[grows_by_new_node_only] (old(has(s.Shards, shardID)) && !old(inReplicas(s.Shards[shardID], replicaID))) ==> len(s.Shards[shardID].Replicas) == old(len(s.Shards[shardID].Replicas)) + 1
@@ -31,4 +33,5 @@ package models
 //@   ensures[other_replica_lists_untouched] all(p, "*Replica", (p != nil && !fresh(p) && !(old(has(s.Shards, shardID)) && p == old(s.Shards[shardID]))) ==> (len(p.Replicas) == old(len(p.Replicas)) && forall(i, 0, len(p.Replicas), p.Replicas[i] == old(p.Replicas[i]))))
 //@   ensures[other_shards_untouched] all(k, "ShardID", k != shardID ==> (has(s.Shards, k) == old(has(s.Shards, k)) && s.Shards[k] == old(s.Shards[k])))
 //@   ensures[all_nonnil] all(k, "ShardID", has(s.Shards, k) ==> s.Shards[k] != nil)
+//@   ensures[replica_lists_are_not_shared_between_shards] noShare(s)
 //@ end
